@@ -125,7 +125,7 @@ def main():
         ],
         "checks": checks,
         "not_applicable": na,
-        "notes": "fix: commits in /repo (see /verif/known_findings.json and DESIGN.md section 8): F1 detached heap push, F2 fill error strands sync peers, F3 completed() ignoring aborted, F4a two successors of one predecessor, F5 rows == terminal height, F6 data race in completed(), F8 priority update on a popping bar, F9 Wait returning before late bars' listeners, F10 WaitGroup reuse panic when Add races with cancellation, F11 filler on-complete/on-abort message wider than the row; open finding F4b (late successor, KNOWN-FINDING in C17). Sensitivity: 36 own mutants + 99 independently seeded changes (7 waves of sub-agents), all detected (DESIGN.md section 12).",
+        "notes": "fix: commits in /repo (see /verif/known_findings.json and DESIGN.md section 8): F1 detached heap push, F2 fill error strands sync peers, F3 completed() ignoring aborted, F4a two successors of one predecessor, F5 rows == terminal height, F6 data race in completed(), F8 priority update on a popping bar, F9 Wait returning before late bars' listeners, F10 WaitGroup reuse panic when Add races with cancellation, F11 filler on-complete/on-abort message wider than the row; open finding F4b (late successor, KNOWN-FINDING in C17). Sensitivity: 37 own mutants + 220 independently seeded changes (14 waves of sub-agents, each given only a property's text); after strengthening all are detected by their target property's quick check except s207, whose history lies outside the domain the properties specify (DESIGN.md section 12).",
     }
     json.dump(m, open("/verif/MANIFEST.json", "w"), indent=1)
     json.dump(rules, open("/verif/prop_rules.json", "w"), indent=1)
